@@ -152,8 +152,19 @@ def soundness(run, V, ubis, passes, gv_all, cell, hmax, route, truth=None, refin
             M = np.asarray(ubis[a]) @ np.linalg.inv(np.asarray(ubis[b]))
             Mi = np.round(M)
             if np.abs(M - Mi).max() < min(thr, 0.5 * passes[b][1] / max(1.0, hmax)) and abs(abs(np.linalg.det(Mi)) - 1) < 1e-9:
-                kk = ":duplicate-grain" if passes[a] == passes[b] else ":duplicate-grain-across-passes"
-                V(route + kk, "reported UBIs #%d and #%d describe the same lattice (|M-int| %.3g)"
+                kk = route + (":duplicate-grain" if passes[a] == passes[b] else ":duplicate-grain-across-passes")
+                # one of the two describes a simulated grain (the other indexes less than half of that grain's peaks with the
+                # true indices, so the truth-based rule below does not see the pair): the same classification applies - when
+                # the earlier report, at the tolerance of its own pass, certainly indexes < 85 % of the grain's supplied
+                # peaks, the left-over peaks seeded the second report (documented known finding)
+                gk = [g_ for g_, ks_ in cons.items() if a in ks_ or b in ks_]
+                if gk and truth is not None:
+                    sel_ = np.flatnonzero(truth[1] == gk[0])
+                    d2_, _, _ = ref_drlv2(np.asarray(ubis[a], float), gv_all[sel_])
+                    f_ = float(np.asarray(d2_ < np.longdouble(passes[a][1]) ** 2 * 0.98, bool).mean()) if len(sel_) else 1.0
+                    if f_ < 0.85:
+                        kk = "same-grain-twice:leftover-peaks-outside-tolerance"
+                V(kk, "reported UBIs #%d and #%d describe the same lattice (|M-int| %.3g)"
                   % (a, b, np.abs(M - Mi).max()), a)
     # two reports that both index one simulated grain with its true integer indices describe the same lattice
     for g, ks in cons.items():
@@ -523,7 +534,57 @@ def one_scenario(run, seed, idx, mods, mode):
         run.count("truth_grains_checked", ngr)
         for g, m in enumerate(matched):
             if len(m) == 0:
-                V(route + ":grain-missed", "simulated grain %d of %d (ideal data, %d peaks each, minpks %g) was not reported"
+                key = route + ":grain-missed"
+                # Which mechanism?  scorethem gates on the orientation unitcell.orient gives in NEAREST mode and looks at the
+                # other hkl assignments of the same angle (crange mode) only if that one already indexes more than minpks
+                # peaks.  When for EVERY non-collinear pair of the grain's peaks the nearest-mode orientation fails the gate
+                # while an alternative of the same angle class passes it, the grain cannot be found whatever pairs are
+                # tried: the documented known finding.  Anything else (some pair passes in nearest mode) stays a violation.
+                try:
+                    selg = np.flatnonzero(tg == g)
+                    ra_ = np.asarray(ix.ra)
+                    tolp = passes[0][1] if passes else hkl_tol
+                    if 0 < len(selg) <= 30 and len(ra_) == len(gseen):
+                        # find() keeps, for every peak, the partner whose cosine is nearest to an allowed one; on exact data
+                        # several partners tie at distance 0.  The mechanism holds for a peak if one of its best partners
+                        # (within 1e-10 of the smallest distance) gives a nearest-mode orientation that fails the gate while
+                        # another assignment of the same angle passes it; it explains the miss only if it holds for EVERY
+                        # peak of the grain that is on a ring.
+                        holds = []
+                        for a_ in selg:
+                            if ra_[a_] < 0:
+                                continue
+                            best = []
+                            for b_ in selg:
+                                if a_ == b_ or ra_[b_] < 0:
+                                    continue
+                                ga_, gb_ = gseen[a_], gseen[b_]
+                                c_ = float(ga_ @ gb_ / np.sqrt((ga_ @ ga_) * (gb_ @ gb_)))
+                                if abs(c_) > 0.98:
+                                    continue
+                                allowed = np.asarray(ix.unitcell.getanglehkls(int(ra_[a_]), int(ra_[b_]))[1], float)
+                                best.append((float(np.abs(allowed - c_).min()) if len(allowed) else 9.0, b_))
+                            if not best:
+                                holds.append(False)
+                                continue
+                            dmin = min(d_ for d_, _ in best)
+                            ok_ = False
+                            for d_, b_ in best:
+                                if d_ > dmin + 1e-10:
+                                    continue
+                                ix.unitcell.orient(int(ra_[a_]), gseen[a_], int(ra_[b_]), gseen[b_], verbose=0)
+                                if count_indexed(np.array(ix.unitcell.UBI), gseen, tolp)[1] > minpks:
+                                    continue
+                                ix.unitcell.orient(int(ra_[a_]), gseen[a_], int(ra_[b_]), gseen[b_], verbose=0, crange=abs(cosine_tol))
+                                if any(count_indexed(np.array(u_), gseen, tolp)[0] > minpks for u_ in ix.unitcell.UBIlist):
+                                    ok_ = True
+                                    break
+                            holds.append(ok_)
+                        if holds and all(holds):
+                            key = "grain-missed:gate-applied-before-alternative-assignments"
+                except Exception as e_:
+                    run.extra.setdefault("missed_grain_classifier_raised", "%s: %s" % (type(e_).__name__, str(e_)[:200]))
+                V(key, "simulated grain %d of %d (ideal data, %d peaks each, minpks %g) was not reported"
                   % (g, ngr, nper, minpks), g)
             elif len(m) > 1:
                 V(route + ":grain-twice", "simulated grain %d reported %d times" % (g, len(m)), g)
